@@ -20,7 +20,7 @@ import (
 //	       list   -> "[" v1 "." v2 ... "]"
 //
 // The rules say nothing definite about JSON numbers/booleans (every VALUE of
-// the v3 API is a string), about escaping inside *keys* (SDKs differ) and about
+// the v3 API is a string) and about
 // the sort order of non-ASCII keys (byte / UTF-16 / code point order differ),
 // so the reference refuses those (Ambiguous()) and the generators keep the
 // reference-checked inputs inside the unambiguous part.
@@ -99,18 +99,23 @@ func (v *Val) Clone() *Val {
 	return c
 }
 
+// plainKey: keys the reference is sure about. ASCII keys only (the sort order of
+// non-ASCII keys differs between byte / UTF-16 / code point order). Keys may be
+// empty or contain the characters the format escapes: they are written escaped
+// exactly like string values - without that two different dictionaries
+// ({"a":"b","c":"d"} and {"a.b.c":"d"}) would share one phrase, which the
+// format's purpose (an id that binds the signed content) rules out.
 func plainKey(k string) bool {
-	if k == "" {
-		return false
-	}
 	for i := 0; i < len(k); i++ {
-		c := k[i]
-		if !(c >= 'a' && c <= 'z' || c >= 'A' && c <= 'Z' || c >= '0' && c <= '9' || c == '_') {
+		if c := k[i]; c < 0x20 || c > 0x7e {
 			return false
 		}
 	}
 	return true
 }
+
+// RefEscape is the escaping of the format (strings and keys).
+func RefEscape(s string) string { return refEscape(s) }
 
 // Ambiguous reports whether the value leaves the part of the format the
 // reference is sure about (numbers, keys that are empty / non-ASCII / contain
@@ -157,7 +162,7 @@ func refItems(v *Val, skip map[string]bool) string {
 	sort.Slice(idx, func(a, b int) bool { return v.Keys[idx[a]] < v.Keys[idx[b]] })
 	parts := make([]string, 0, 2*len(idx))
 	for _, i := range idx {
-		parts = append(parts, v.Keys[i], RefValue(v.Vals[i]))
+		parts = append(parts, refEscape(v.Keys[i]), RefValue(v.Vals[i]))
 	}
 	return strings.Join(parts, ".")
 }
@@ -196,11 +201,11 @@ func RefTxID(tx *Val) []byte { return Sha3([]byte(RefTxPhrase(tx))) }
 
 // Style selects representation variants that must not matter.
 type Style struct {
-	Shuffle    bool // random key order
-	Space      bool // random whitespace between tokens
-	UEscape    int  // per-mille of string characters written as \uXXXX
-	ShortEsc   bool // use \/ and the short escapes where allowed
-	R          *rand.Rand
+	Shuffle  bool // random key order
+	Space    bool // random whitespace between tokens
+	UEscape  int  // per-mille of string characters written as \uXXXX
+	ShortEsc bool // use \/ and the short escapes where allowed
+	R        *rand.Rand
 }
 
 var spaces = []string{" ", "\n", "\t", "\r", "  ", " \n "}
